@@ -66,6 +66,7 @@ type Inv struct {
 	answeredByFlush bool
 	FidType  uint8 // type of the fid when the implementation was entered
 	hb       uint64
+	autoAt   int // >0: a parked call wakes up by itself once the step counter reaches this (release in the middle of activity, not only at quiescence)
 }
 
 type sUser struct {
@@ -132,6 +133,8 @@ type ScriptFS struct {
 	flushes []*Inv
 	pendingFlush []*go9p.SrvReq
 	authErrNext  bool // the authentication callback of the request in flight must refuse
+	AutoRelease  bool // parked calls may wake up by themselves after a drawn number of steps
+	FlushAlways  bool // the Flush hook cancels (req.Flush()) whatever it is shown, also a request it has not seen yet
 }
 
 func NewScriptFS(x *Ctx) *ScriptFS {
@@ -325,9 +328,17 @@ func (f *ScriptFS) setExpect(inv *Inv, variant int, m *Msg) {
 	}
 }
 
+func (f *ScriptFS) released(inv *Inv) bool {
+	return inv.Released || (inv.autoAt > 0 && f.x.S.Steps >= inv.autoAt)
+}
+
 func (f *ScriptFS) dispatch(op string, req *go9p.SrvReq) {
 	inv := f.newInv(op, req)
 	p := f.plan(inv)
+	if f.AutoRelease && (p.Mode == PHold || p.Mode == PAsync || p.Mode == PTwiceLate) && rt.Choose(2) == 0 {
+		inv.autoAt = rt.Step() + 1 + rt.Choose(400)
+		f.x.Fault("hold-released-mid-activity")
+	}
 	if f.isPendingFlush(req) && p.OnFlush != 0 {
 		// the framework told us to flush this request before handing it to us
 		switch p.OnFlush {
@@ -347,7 +358,7 @@ func (f *ScriptFS) dispatch(op string, req *go9p.SrvReq) {
 	case PHold:
 		inv.Held = true
 		f.x.Fault("hold")
-		rt.YieldUntil(rt.SiteHold, func() bool { return inv.Released })
+		rt.YieldUntil(rt.SiteHold, func() bool { return f.released(inv) })
 		inv.Held = false
 		if inv.answeredByFlush {
 			return
@@ -364,7 +375,7 @@ func (f *ScriptFS) dispatch(op string, req *go9p.SrvReq) {
 		f.x.Fault("async-respond")
 		rt.Go(rt.SiteSpawn, func() {
 			rt.SetName("async-answer")
-			rt.YieldUntil(rt.SiteHold, func() bool { return inv.Released })
+			rt.YieldUntil(rt.SiteHold, func() bool { return f.released(inv) })
 			inv.Held = false
 			if inv.answeredByFlush {
 				return
@@ -381,7 +392,7 @@ func (f *ScriptFS) dispatch(op string, req *go9p.SrvReq) {
 		inv.Held = true
 		rt.Go(rt.SiteSpawn, func() {
 			rt.SetName("second-answer")
-			rt.YieldUntil(rt.SiteHold, func() bool { return inv.Released })
+			rt.YieldUntil(rt.SiteHold, func() bool { return f.released(inv) })
 			inv.Held = false
 			f.answer(inv, 1)
 		})
@@ -426,7 +437,7 @@ func (f *ScriptFS) FidDestroy(fid *go9p.SrvFid) {
 func (f *ScriptFS) HeldInvs() []*Inv {
 	var hs []*Inv
 	for _, i := range f.Log {
-		if i.Held && !i.Released {
+		if i.Held && !f.released(i) {
 			hs = append(hs, i)
 		}
 	}
@@ -475,6 +486,13 @@ func (f *ScriptFS) onFlush(target *go9p.SrvReq) {
 	f.Log = append(f.Log, inv)
 	if ti != nil {
 		rt.HBAcquire(unsafe.Pointer(&ti.hb))
+	}
+	if (ti == nil || ti.Plan == nil) && f.FlushAlways {
+		// an implementation that cancels unconditionally, as the FlushOp documentation suggests
+		f.x.Fault("flushop-cancel-unseen")
+		f.pendingFlush = append(f.pendingFlush, target)
+		target.Flush()
+		return
 	}
 	if ti == nil || ti.Plan == nil {
 		f.pendingFlush = append(f.pendingFlush, target)
